@@ -7,6 +7,18 @@ from .strenc import StrOps, is_str
 BIRTH = z3.Function("birth", z3.IntSort(), z3.IntSort())   # allocation time of an object reference
 
 
+_mem_fns = {}
+
+
+def mem_fn(ty):
+    """member(L, e): the set view of a list value (a superset of its elements for lists the code did not build;
+    exact relative to the operands for append / extend / filter)."""
+    k = repr(ty)
+    if k not in _mem_fns:
+        _mem_fns[k] = z3.Function("member_" + ty.args[0].key, sort_of(ty), sort_of(ty.args[0]), z3.BoolSort())
+    return _mem_fns[k]
+
+
 class Infeasible(Exception):
     pass
 
@@ -119,6 +131,17 @@ class Ctx:
             sv = v.sym if isinstance(v, Cell) else v
             s = sort_of(ty)
             self.assume(s.len(sv.t) >= 0)
+            if ty.args[0].name in ("Ref", "Int", "Str"):
+                km = z3.Int(self.fresh_name("k"))
+                em = z3.Select(s.data(sv.t), km)
+                self.assume(z3.ForAll([km], z3.Implies(z3.And(0 <= km, km < s.len(sv.t)), mem_fn(ty)(sv.t, em)), patterns=[em]))
+                # ... and only those: a member has a position (skolem function)
+                pos = z3.Function(self.fresh_name("pos"), sort_of(ty.args[0]), z3.IntSort())
+                ee = z3.Const(self.fresh_name("e"), sort_of(ty.args[0]))
+                self.assume(z3.ForAll([ee], z3.Implies(mem_fn(ty)(sv.t, ee),
+                                                       z3.And(0 <= pos(ee), pos(ee) < s.len(sv.t),
+                                                              z3.Select(s.data(sv.t), pos(ee)) == ee)),
+                                      patterns=[mem_fn(ty)(sv.t, ee)]))
             if ty.args[0].name == "Ref":
                 # every object stored in an existing list was allocated before now (so it differs from later allocations)
                 k = z3.Int(self.fresh_name("k"))
@@ -450,8 +473,12 @@ class Ctx:
                 k = z3.Int(self.fresh_name("k"))
                 ea = self.wrap(z3.Select(s.data(x), k), ta.args[0])
                 eb = self.wrap(z3.Select(s.data(y), k), ta.args[0])
-                return z3.And(s.len(x) == s.len(y),
-                              z3.ForAll([k], z3.Implies(z3.And(0 <= k, k < s.len(x)), self.zbool(self.equal(ea, eb)))))
+                parts = [s.len(x) == s.len(y),
+                         z3.ForAll([k], z3.Implies(z3.And(0 <= k, k < s.len(x)), self.zbool(self.equal(ea, eb))))]
+                if ta.args[0].name in ("Ref", "Int", "Str"):
+                    em = z3.Const(self.fresh_name("e"), sort_of(ta.args[0]))     # equal lists have the same members
+                    parts.append(z3.ForAll([em], mem_fn(ta)(x, em) == mem_fn(ta)(y, em)))
+                return z3.And(*parts)
             return self.term(a, ta) == self.term(b, tb)
         if ta.name == "Ref" and tb.name == "Ref":
             return a.t == b.t
